@@ -115,6 +115,17 @@ CHECKS = [
      "not_covered": ["mutation inside scikit-learn / pandas objects by library code", "CalTRACK-hourly predict history beyond the flow obligations"],
      "explanation": "flow obligations + engine-A frame obligations discharged on every run; bounded histories labelled bounded",
      },
+    {"id": "C18", "level": "proof", "modules": ["contracts.C18_caltrack"], "bounded": ["bounded.C18_hours"],
+     "technique": "deductive verification on the row-wise model (pyvc symbolic execution of the real weight / bin functions for one arbitrary hour, z3) + bounded-exhaustive hours",
+     "text": "The real _segment_weights_* functions are executed for one arbitrary hour with a symbolic calendar month: full weight in exactly "
+             "the segment centred on its month, one half in exactly the two neighbours (cyclic), the prediction map sends month k to the fitted "
+             "segment centred on k and predicts with one_month segments. compute_temperature_bin_features is executed for 0..6 strictly increasing "
+             "SYMBOLIC endpoints and a symbolic temperature cell: bins sum to T, each within its width, filled in order, endpoint in the lower bin, "
+             "missing T gives missing bins.",
+     "note": "assumed pandas contracts: index.month / element-wise map, boolean indexing, reindex(fill_value), Series addition; "
+             "hour-of-week and occupancy features are decided by the bounded-exhaustive part only",
+     "not_covered": ["pandas' own month arithmetic across timezones (exercised by the bounded part)"],
+     },
 ]
 _NOT_BUILT = "machinery for this property is not built yet (see DESIGN.md §7 build order); not claimed"
 NOT_APPLICABLE = [{"property_id": f"C{n:02d}", "reason": _NOT_BUILT} for n in range(1, 21) if n != 15 and f"C{n:02d}" not in {c["id"] for c in CHECKS}] + [
